@@ -12,19 +12,13 @@ are not enabled in a phase are no-ops), i.e. over every reachable state of one r
 namespace UvModel.FsReq
 open UvModel.FsBuf
 
-/-- all kernel answers that occur in a life cycle -/
-def answers (a : Args) (evs : List Ev) : List Outcome :=
-  a.outs ++ evs.flatMap fun e => match e with | .work os => os | _ => []
-
-def cqeResults (evs : List Ev) : List Int :=
-  evs.filterMap fun e => match e with | .cqe r => some r | _ => none
-
 /-! Proved below: `cleanup_nulls`, `cleanup_idempotent` (both for EVERY state, reachable or not), `work_result_normalised`,
 `eintr_not_surfaced` (every request, ledger and answer list), `exactly_one_cb`, `sync_never_registers`,
 `registered_iff_in_flight` (every `Args`, every event list).
 
 NOT yet proved — kept as `def …_stmt : Prop` (full strength, not theorems): `no_double_free_stmt`, `cleanup_frees_all_stmt`,
-`path_lifetime_async_stmt`, `path_borrowed_sync_stmt`, `result_normalised_stmt`, `stat_ptr_stmt`, `dir_handed_over_stmt`.
+`path_lifetime_async_stmt`, `path_borrowed_sync_stmt`, `stat_ptr_stmt`, `dir_handed_over_stmt`
+(`result_normalised_stmt` is proved: `result_normalised_holds`).
 What is missing is one inductive invariant (ledger counts agree with the pointer fields `path`/`bufs`/`ptr`, per phase) through
 `attempt`/`work`/`submit`/`cqe`/`scandirNext`/`cleanup`; the case analysis (36 kinds x fields) exceeded the build budget of this
 round.  Until then these statements are *tested*, not proved: checks/c11.py evaluates them on the model's output for every
@@ -65,32 +59,7 @@ def path_borrowed_sync_stmt : Prop := ∀ (a : Args) (evs : List Ev),
     a failed call — never the raw `-1` of the C call and never a positive errno -/
 theorem work_result_normalised (q : Req) (l : Ledger) (outs : List Outcome) :
     (∃ n : Nat, ((.ok n ∈ outs) ∨ n = 0) ∧ (work q l outs).1.result = (n : Int)) ∨
-    (∃ e : Nat, ((.fail e ∈ outs) ∨ e = FsBuf.EIO) ∧ (work q l outs).1.result = -(e : Int)) := by
-  induction outs generalizing q l with
-  | nil =>
-    rw [work_nil]
-    rcases attempt_out q l (.fail EIO) with ⟨n, hn, h | h⟩ | ⟨e, he, h⟩
-    · cases h
-    · left; refine ⟨0, Or.inr rfl, ?_⟩; subst h; simp [hn, finishWork]
-    · right; cases h; refine ⟨EIO, Or.inr rfl, ?_⟩; simp [he, finishWork]
-  | cons o rest ih =>
-    rw [work_cons]
-    rcases attempt_out q l o with ⟨n, hn, h⟩ | ⟨e, he, h⟩
-    · rw [hn]; simp only []
-      left
-      rcases h with h | h
-      · exact ⟨n, Or.inl (by simp [h]), by simp [finishWork]⟩
-      · subst h; exact ⟨0, Or.inr rfl, by simp [finishWork]⟩
-    · rw [he]; simp only []
-      split
-      · rcases ih (attempt q l o).1 (attempt q l o).2.1 with ⟨n, hn, hr⟩ | ⟨e', hn, hr⟩
-        · left; refine ⟨n, ?_, hr⟩; rcases hn with hn | hn
-          · exact Or.inl (List.mem_cons_of_mem _ hn)
-          · exact Or.inr hn
-        · right; refine ⟨e', ?_, hr⟩; rcases hn with hn | hn
-          · exact Or.inl (List.mem_cons_of_mem _ hn)
-          · exact Or.inr hn
-      · right; exact ⟨e, Or.inl (by simp [h]), by simp [finishWork]⟩
+    (∃ e : Nat, ((.fail e ∈ outs) ∨ e = FsBuf.EIO) ∧ (work q l outs).1.result = -(e : Int)) := work_result_cases q l outs
 
 example : (work ⟨.open, true, .heap, false, .null, .null, 0, 0⟩ Ledger.empty [.fail EINTR, .fail 13]).1.result = -13 := by decide +kernel
 
@@ -125,6 +94,19 @@ def result_normalised_stmt : Prop := ∀ (a : Args) (evs : List Ev),
   (run a evs).req.result ≥ 0 ∨ (run a evs).req.result = UV_ECANCELED ∨
   (∃ e : Nat, ((.fail e ∈ answers a evs) ∨ e = FsBuf.EIO) ∧ (run a evs).req.result = -(e : Int)) ∨
   (∃ r, r ∈ cqeResults evs ∧ (run a evs).req.result = r)
+
+/-- `req->result` of a completed request is a count (>= 0), UV_ECANCELED, the negated errno of a kernel answer of this
+    life cycle (EIO for an exhausted script) or the CQE result the ring delivered — for every kind, route and event list -/
+theorem result_normalised_holds : result_normalised_stmt := by
+  intro a evs hd
+  simp only [run] at hd ⊢
+  have h := J_run a evs a.outs [] (init a) (fun _ h => h) (fun hp => by simp [init] at hp)
+  rw [answers_eq, cqes_eq]
+  simpa [ResOk] using h (Or.inr hd)
+
+example : (run ⟨.open, true, false, 0, true, false, 4, 0, []⟩ [.submit, .work [.fail EINTR, .fail 2], .done]).req.result = -2 ∧
+          (run ⟨.open, true, true, 0, true, false, 4, 0, []⟩ [.submit, .cqe (-2)]).req.result = -2 ∧
+          (run ⟨.open, true, false, 0, true, false, 4, 0, []⟩ [.submit, .cancel, .done]).req.result = UV_ECANCELED := by decide +kernel
 
 def stat_ptr_stmt : Prop := ∀ (a : Args) (evs : List Ev),
   isStat a.op = true → (run a evs).phase = .done → (run a evs).cleaned = false →
